@@ -10,18 +10,18 @@ LEVEL = "model_checking"
 RUNS = [
     ("C01_range_1x4", "range", 1, 4, ("simulate", 2500), ("bfs", None)),
     ("C01_read_1x4", "read", 1, 4, ("simulate", 800), ("bfs", None)),
-    ("C01_binary_1x4", "binary", 1, 4, ("simulate", 3000), ("simulate", 60000)),
-    ("C01_nary_1x3", "nary", 1, 3, ("simulate", 800), ("simulate", 20000)),
+    ("C01_binary_1x4", "binary", 1, 4, ("simulate", 3000), ("bfs", None)),
+    ("C01_nary_1x3", "nary", 1, 3, ("simulate", 800), ("simulate", 5000)),
     ("C01_shiftflip_1x4", "shiftflip", 1, 4, ("simulate", 600), ("bfs", None)),
     ("C01_range_2x2", "range", 2, 2, ("simulate", 1200), ("bfs", None)),
-    ("C01_binary_2x2", "binary", 2, 2, ("simulate", 1200), ("simulate", 40000)),
+    ("C01_binary_2x2", "binary", 2, 2, ("simulate", 1200), ("simulate", 8000)),
     ("C01_range_3x1", "range", 3, 1, ("simulate", 500), ("bfs", None)),
     ("C01_binary_3x1", "binary", 3, 1, ("simulate", 600), ("bfs", None)),
-    ("C01_nary_3x1", "nary", 3, 1, ("simulate", 400), ("simulate", 20000)),
+    ("C01_nary_3x1", "nary", 3, 1, ("simulate", 400), ("simulate", 4000)),
     ("C01_read_2x2", "read", 2, 2, ("simulate", 400), ("bfs", None)),
     ("C01_shiftflip_2x2", "shiftflip", 2, 2, ("simulate", 300), ("bfs", None)),
     ("C01_shiftflip_3x1", "shiftflip", 3, 1, ("simulate", 300), ("bfs", None)),
-    ("C01_shiftflip_1x6", "shiftflip", 1, 6, ("simulate", 400), ("simulate", 20000)),
+    ("C01_shiftflip_1x6", "shiftflip", 1, 6, ("simulate", 400), ("simulate", 4000)),
 ]
 
 
